@@ -479,6 +479,9 @@ impl<'a, C: Crypto + 'a> CaseP<'a, C> {
     ) -> Result<(), Error> {
         let mut verifier = noc.verify_chain_start(crypto, time);
 
+        // The leaf must be a node certificate
+        noc.get_node_id()?;
+
         if fabric.fabric_id() != noc.get_fabric_id()? {
             Err(ErrorCode::Invalid)?;
         }
